@@ -276,6 +276,22 @@ func evalKeys(d progen.KeyParams) (viol []string, res *Result, probes int, note 
 // distinct directories, the stale completion changes nothing, the pipestance
 // completes with the denoted values and only the dead job ran twice.
 func evalAttempts(d progen.KeyParams, job string) (viol []string, note string) {
+	viol, note = evalAttemptsWait(d, job, false)
+	if len(viol) == 0 && note == "" {
+		// the same with --retry-wait=0: the restart happens within the
+		// second in which the failed attempt was set up
+		v2, n2 := evalAttemptsWait(d, job, true)
+		for _, v := range v2 {
+			viol = append(viol, "with --retry-wait=0: "+v)
+		}
+		if n2 != "" && n2 != "inexpressible" && n2 != "unspecified" {
+			note = n2
+		}
+	}
+	return viol, note
+}
+
+func evalAttemptsWait(d progen.KeyParams, job string, noWait bool) (viol []string, note string) {
 	p := progen.KeyFlow(d)
 	if p == nil {
 		return nil, "inexpressible"
@@ -286,7 +302,7 @@ func evalAttempts(d progen.KeyParams, job string) (viol []string, note string) {
 	}
 	run := func() []string {
 		var v []string
-		Run(p, Schedule{}, Options{MrpPid: 7171, Retries: 1, Zombie: true,
+		Run(p, Schedule{}, Options{MrpPid: 7171, Retries: 1, Zombie: true, NoRetryWait: noWait,
 			Fault: &Fault{Job: job, Kind: "vanish", Times: 1}, Inspect: func(r *Result) {
 				if r.Err != "" {
 					v = append(v, "run error: "+firstLine(r.Err))
